@@ -3,7 +3,7 @@ import itertools
 import re
 from .family import Family
 
-PROPS_MODULES = ["C11"]
+PROPS_MODULES = ["C11", "HandlerOps"]
 RULE = ("family `ring`: a real VhostUserDaemon (RecordingBackend; VringMutex- and VringRwLock-backed rings; one worker owning "
         "2 rings) is driven by an independent raw vhost-user peer through histories over {SET_FEATURES with/without bit 30, "
         "SET_VRING_KICK with a fresh eventfd / with the no-descriptor flag, SET_VRING_CALL likewise, SET_VRING_ENABLE 0/1, "
